@@ -11,9 +11,13 @@
     append-at-EOF versus promote decision, Hread, Htrunc, Hdupdd, Hdeldd): extents never overlap, and (5) a
     successful write / read / truncation / duplication has exactly the effect the specification's byte-array
     functions [write_at] / [read_at] describe, for every history.
-    Reopen (HTPstart) and external elements are decided by the correspondence against S only (DESIGN.md C01). *)
+    (6) external elements (hextelt.c HXPwrite / HXPread, model shared with C04: position update, growth test and new
+    length regenerated from the source) are byte arrays at an offset of the external file.
+    Reopen (HTPstart), HXcreate's promotion of existing data and hbuffer.c are decided by the correspondence against
+    S only (DESIGN.md C01). *)
 From Coq Require Import ZArith List Bool.
 Require Import H4.EStoreSpec H4.HBlocksModel H4.HBlocksProofs H4.EStoreProofs H4.HFileModel H4.HFileProofs H4.HFileRefine.
+Require H4.ExtEltModel H4.ExtEltProofs.
 Import ListNotations.
 Local Open Scope Z_scope.
 
@@ -134,6 +138,16 @@ Theorem contig_write_refines_spec : forall ops e k pos app bytes s' n c,
 Proof. exact contig_history_write_refines_lemma. Qed.
 Print Assumptions contig_write_refines_spec.
 
+(** the same from ANY state that satisfies the extent invariant, whatever bytes the file holds beyond the element --
+    e.g. after Htrunc, close and reopen, when the bytes behind the shortened element are still those of its longer
+    version: the gap is written out as zeros (before the repair of Hwrite this was false: [stale_gap_is_zeroed]) *)
+Theorem contig_write_refines_spec_any_image : forall s k pos app bytes s' n c,
+  HFileProofs.Inv s -> 0 <= pos -> Forall is_byte c -> Forall is_byte bytes ->
+  hwrite s k pos app bytes = (s', WOk n) -> content s k = Some c ->
+  content s' k = Some (settle (write_at c pos bytes)).
+Proof. exact contig_write_refines_spec_lemma. Qed.
+Print Assumptions contig_write_refines_spec_any_image.
+
 Theorem contig_read_refines_spec : forall s k pos n c,
   content s k = Some c -> 0 <= pos -> 0 < n -> pos + n <= HFileModel.zlen c ->
   hread s k pos n = Some (read_at c pos n).
@@ -151,7 +165,42 @@ Theorem contig_dup_refines_spec : forall s nk ok s',
 Proof. exact contig_dup_refines_lemma. Qed.
 Print Assumptions contig_dup_refines_spec.
 
+(** (6) external elements: element byte q is byte extern_offset + q of the external file; a write of [data] at the
+    handle's position makes the length max(old length, posn + len) (it never shrinks, whatever the offset), changes
+    exactly the element bytes [posn, posn + len), leaves every foreign byte in front of the element alone; a read inside
+    the element returns exactly its bytes and advances the position by the count *)
+Theorem external_element_is_byte_array :
+  (forall x f data, 0 <= ExtEltModel.x_posn x -> 0 <= ExtEltModel.x_offset x ->
+     let x' := fst (ExtEltModel.hxp_write x f data) in let f' := snd (ExtEltModel.hxp_write x f data) in
+     let len := Z.of_nat (List.length data) in
+     ExtEltModel.x_length x' = Z.max (ExtEltModel.x_length x) (ExtEltModel.x_posn x + len) /\
+     ExtEltModel.x_posn x' = ExtEltModel.x_posn x + len /\ ExtEltModel.x_offset x' = ExtEltModel.x_offset x /\
+     (forall q, 0 <= q ->
+        f' (ExtEltModel.x_offset x + q) =
+          if (ExtEltModel.x_posn x <=? q) && (q <? ExtEltModel.x_posn x + len)
+          then nth (Z.to_nat (q - ExtEltModel.x_posn x)) data 0 else f (ExtEltModel.x_offset x + q)) /\
+     (forall k, k < ExtEltModel.x_offset x -> f' k = f k)) /\
+  (forall x f len, 0 <= ExtEltModel.x_posn x -> 1 <= len -> ExtEltModel.x_posn x + len <= ExtEltModel.x_length x ->
+     exists x' out, ExtEltModel.hxp_read x f len = Some (x', out) /\
+       ExtEltModel.x_posn x' = ExtEltModel.x_posn x + len /\ ExtEltModel.x_length x' = ExtEltModel.x_length x /\
+       Z.of_nat (List.length out) = len /\
+       forall i, 0 <= i < len -> nth (Z.to_nat i) out 0 = f (ExtEltModel.x_offset x + (ExtEltModel.x_posn x + i))).
+Proof. exact (conj ExtEltProofs.hxp_write_refines ExtEltProofs.hxp_read_refines). Qed.
+Print Assumptions external_element_is_byte_array.
+
 (** Non-vacuity *)
+Example stale_gap_is_zeroed :
+  let s := mkfs [mkdd (1,1) 202 2] 204 (fun _ => 170) in     (* every byte of the file is 0xAA *)
+  HFileProofs.Inv s /\
+  match hwrite s (1,1) 5 true [9; 10] with
+  | (s', WOk 2) => content s' (1,1) = Some [170; 170; 0; 0; 0; 9; 10]
+  | _ => False end.
+Proof.
+  split; [|vm_compute; reflexivity].
+  split; [cbn; discriminate|]. split.
+  - intros d [<-|[]]. unfold region_ok. cbn. repeat split; discriminate.
+  - intros d1 d2 [<-|[]] [<-|[]]. left. reflexivity.
+Qed.
 Example contig_append_after_seek_past_end :
   let s := fold_left fstep [FCreate (1,1) 2; FWrite (1,1) 0 true [7; 8]] (finit 202) in
   content s (1,1) = Some [7; 8] /\
